@@ -175,6 +175,7 @@ class ImapSession:
         self.view_flags = None  # per position: the flags this session was last told (None = never told), C04's belief monitor
         self._selecting = {}  # tag -> True for SELECT/EXAMINE in flight
         self._closing = set()  # tags of CLOSE/UNSELECT in flight
+        self._silent = set()  # tags of STORE ... .SILENT in flight
         self.view_errors = []
         rig.server.new_client(self.reader, self.writer)
         rig.sessions.append(self)
@@ -221,6 +222,10 @@ class ImapSession:
                 if r.status == "OK":
                     self.view_n = None
                     self.view_flags = None
+            elif r.tag in self._silent:
+                self._silent.discard(r.tag)
+                if self.view_flags is not None:
+                    self.view_flags = [None] * len(self.view_flags)
 
     # -- low level
     def feed(self, data: bytes):
@@ -277,6 +282,8 @@ class ImapSession:
             self._selecting[tag] = True
         elif verb in ("CLOSE", "UNSELECT"):
             self._closing.add(tag)
+        elif ".SILENT" in shown.upper() and "STORE" in shown.upper().split()[:2]:
+            self._silent.add(tag)  # the client asked not to be told the outcome: it no longer knows these flags from the server
         self.log.append(f"C: {tag} {shown}")
         for fn in self.rig.on_send:
             fn(self, tag, shown)
